@@ -324,10 +324,12 @@ def _ascending(call: ast.Call) -> bool:
     return True
 
 
-def _seeds(rc: RuleCtx):
-    """Seeds of the fixed / global variants: reduced == [0, n-1]; stack == [(c, 0, n)] only if n > 2."""
+def _seeds(rc: RuleCtx, only=None):
+    """Seeds of the fixed / global variants: reduced == [0, n-1]; stack == [(c, 0, n)] exactly if n > 2."""
     res = rc.res
     for name, callee in (("rdp_fixed", "rdp._rdp_fixed"), ("grdp", "rdp._grdp"), ("mp_grdp", "rdp._grdp")):
+        if only is not None and name not in only:
+            continue
         fi = rc.func(f"rdp.{name}")
         ev = rc.new_eval()
         pts = ev.point("points", True)
@@ -344,6 +346,7 @@ def _seeds(rc: RuleCtx):
         pos = cfi.signature.positional
         amap = dict(zip(pos, calls[0].args))
         n = sym("n")
+        anf.declare_integer(n)          # a length: `n - 1 >= 2` and `n > 2` are the same fact
         red, stk = amap.get("reduced"), amap.get("stack")
         if isinstance(red, Vec) and len(red.items) == 2 and red.items[0].is_zero() and red.items[1].equals(n - C(1)):
             res.ok("R2", f"rdp.{name}:seed", "retained set seeded with [0, n-1]")
@@ -382,6 +385,14 @@ def _seeds(rc: RuleCtx):
                               f"seed under {g}", "seed only if len(points) > 2", construct="seed guard")
         if ok and any_seed:
             res.ok("R1b", f"rdp.{name}:seed", "work stack seeded with (cost, 0, n) only if n > 2")
+            # ... and whenever n > 2: a curve with an interior point must be open to refinement
+            seeded = g_or(*[g for g, v in stk_cases if isinstance(v, Vec) and len(v.items) == 1])
+            if g_implies(canon_sign(n - C(2), OPS[">"]), seeded):
+                res.ok("R2", f"rdp.{name}:seed-coverage", "every curve with an interior point (n > 2) starts with the whole curve on the work stack")
+            else:
+                res.violation("R2", fi.module, fi.name, fi.node,
+                              "a curve with an interior point can start with an empty work stack: it is returned as its two end points whatever length / threshold is asked for",
+                              f"seeded when {_short(seeded, 120)}", "seeded whenever len(points) > 2", construct="seed coverage")
         elif ok:
             res.violation("R2", fi.module, fi.name, fi.node, "the work stack is never seeded", str(stk), "[(0, 0, n)] if n > 2", construct="seed stack")
         elif not any(f.rule == "R1b" and f.function == fi.name for f in res.findings):
